@@ -2,6 +2,9 @@ import struct
 from typing import BinaryIO, Protocol
 
 
+IPS_EOF_OFFSET = 0x454F46  # b"EOF" read as a 3 bytes record offset
+
+
 class Writer(Protocol):
     def begin(self) -> None:
         """Writes the header"""
@@ -28,13 +31,20 @@ class IPSWriter(Writer):
     def write_block_header(self, block: bytes, block_address: int) -> None:
         if self._copier_header:
             block_address += 0x200
+        if block_address == IPS_EOF_OFFSET:
+            raise ValueError("IPS cannot encode a record at offset 0x454F46, it reads as the EOF marker.")
         self.file.write(struct.pack(">BH", block_address >> 16, block_address & 0xFFFF))
         self.file.write(struct.pack(">H", len(block)))
 
     def write_block(self, block: bytes, block_address: int) -> None:
         k = 0
+        header_delta = 0x200 if self._copier_header else 0
         while block[k:]:
             slice_size = min(0xFFFF, len(block) - k)
+            if slice_size > 1 and k + slice_size < len(block):
+                # the next record must not start at the offset that reads as "EOF".
+                if block_address + header_delta + slice_size == IPS_EOF_OFFSET:
+                    slice_size -= 1
             block_slice = block[k : k + slice_size]
 
             self.write_block_header(block_slice, block_address)
